@@ -1862,6 +1862,75 @@ def rule_r15(chk, p, t, rid="C04.R15"):
         r.error("buffers", f"{n} `*_like(parameter)` buffers found in physics/ and dynamics/ (2 confirmed by hand: the derivative buffers)")
 
 
+_PURITY_SELFTEST = """
+def flips(x):
+    y = asarray(x, dtype=float)
+    y *= 2.0
+    return y
+
+def copies(x):
+    y = array(x, dtype=float)
+    y *= 2.0
+    return y
+
+def scalar(angle: float):
+    angle %= 6.28
+    return angle
+"""
+
+
+def rule_r16(chk, p, t, rid="C04.R16"):
+    from rsa.inplace import InPlace
+
+    r = chk.rule(
+        rid,
+        "a conversion never writes into the array it is given",
+        40,
+        "a frame / coordinate conversion is a function of its argument: converting the same vector twice gives the same "
+        "result, and the caller's vector is unchanged afterwards (round trips and composites reuse their inputs).  No "
+        "function of physics.transforms, physics.maths, physics.measurements or physics.orbits modifies a parameter in "
+        "place - `x *= m`, `x[i] = v`, a mutating method, `out=x` - directly, through an alias or a view (`asarray(x)` of "
+        "an ndarray IS x; slices, `.T`, `reshape` are views), or through a resolved callee (parameter-mutation summaries "
+        "of rsa/inplace.py).  `array(x)` / `x.copy()` / any arithmetic makes an own object.  Parameters annotated with a "
+        "scalar type are exempt from the augmented-assignment clause (re-binding)",
+        "the values computed",
+    )
+    import types
+
+    st = ast.parse(_PURITY_SELFTEST)
+
+    class _Fake:
+        def __init__(self, node):
+            self.node, self.name, self.qualname, self.cls = node, node.name, "selftest." + node.name, None
+            self.params = [a.arg for a in node.args.args]
+
+    class _NoT:
+        def callees(self, *a, **k):
+            return []
+
+    ip0 = InPlace(p, _NoT())
+    got = {f.name: sorted(ip0.mutated_params(_Fake(f))) for f in st.body if isinstance(f, ast.FunctionDef)}
+    if got != {"flips": ["x"], "copies": [], "scalar": []}:
+        r.error("selftest", f"the embedded examples are not classified as expected: {got}")
+    ip = InPlace(p, t)
+    n = 0
+    for fi in sorted(p.all_functions(include_nested=False), key=lambda f: f.qualname):
+        if not fi.module.name.startswith(("resonaate.physics.transforms", "resonaate.physics.maths", "resonaate.physics.measurements", "resonaate.physics.orbits")):
+            continue
+        pars = [x for x in fi.params if x not in ("self", "cls")]
+        if not pars:
+            continue
+        n += 1
+        mp = {k: v for k, v in ip.mutated_params(fi).items() if k in pars}
+        if mp:
+            par, (what, node) = sorted(mp.items())[0]
+            r.violation(fi.qualname, f"argument-modified:{fi.name}:{par}", f"{fi.name} modifies its parameter `{par}` in place: {what}.  The caller's array is changed by the call - a second conversion of the same vector gives another result, and whatever the caller computes from the vector afterwards (the inverse conversion, another frame) starts from the modified values", fi.loc(node))
+        else:
+            r.ok(fi.qualname, f"no in-place operation on {pars}", fi.loc())
+    if n < 40:
+        r.error("functions", f"only {n} functions examined")
+
+
 def run(chk, p, t):
     chk.explanation = (
         "Static decision of structural necessary conditions of C04 by normal forms of rotation chains and matrix "
@@ -1873,7 +1942,7 @@ def run(chk, p, t):
         "geodetic closed form."
     )
     chk.assumptions += ["numpy matmul / dot / multi_dot are matrix products; .T is the transpose", "passive rotation convention of Vallado eq. 3-15 (cited by the module)"]
-    for fn in (rule_r1, rule_r2, rule_r3, rule_r4, rule_r5, rule_r6, rule_r7, rule_r8, rule_r9, rule_r10, rule_r11, rule_r12, rule_r13, rule_r14, rule_r15):
+    for fn in (rule_r1, rule_r2, rule_r3, rule_r4, rule_r5, rule_r6, rule_r7, rule_r8, rule_r9, rule_r10, rule_r11, rule_r12, rule_r13, rule_r14, rule_r15, rule_r16):
         rid = "C04.R" + fn.__name__.split("_r")[-1]
         if not chk.wants(rid):
             continue
